@@ -349,6 +349,8 @@ IDENT = [[1.0, 0.0, 0.0], [0.0, 1.0, 0.0], [0.0, 0.0, 1.0]]
 SCALES = {"s1": 1.0, "s2^-10": 2.0**-10, "s2^10": 2.0**10, "s1e-3": 1e-3, "s1e3": 1e3, "s1e-6": 1e-6, "s1e6": 1e6, "s1e-9": 1e-9}
 EXTREME_SCALES = ("s1e-6", "s1e6", "s1e-9")  # outside the 1e-3..1e3 range that C09 pins; used by targeted cases only
 SHIFTS = {"t0": (0.0, 0.0, 0.0), "t3-25": (3.0, -2.0, 5.0), "t10u": tuple(10.0 * c / math.sqrt(38.0) for c in (3.0, -2.0, 5.0))}
+# "any offset": ~2e7 diameters from the origin (only used where the answer stays well conditioned: containment)
+SHIFTS["tfar"] = (2.0**24, -(2.0**24), 2.0**23)
 
 
 def placement(rot="I", scale="s1", shift="t0"):
@@ -406,7 +408,7 @@ def placements_all():
     rots = ["I"] + ["L%d" % i for i in range(1, 24)] + list(GENERIC_ROTS)
     for r in rots:
         for s in [k for k in SCALES if k not in EXTREME_SCALES]:
-            for t in SHIFTS:
+            for t in [x for x in SHIFTS if x != "tfar"]:
                 out.append(placement(r, s, t))
     return out
 
@@ -416,7 +418,7 @@ def placements_medium():
     rots = ["I", "L5", "L10", "L17", "L22"] + list(GENERIC_ROTS)
     for i, r in enumerate(rots):
         for j, s in enumerate([k for k in SCALES if k not in EXTREME_SCALES]):
-            for k, t in enumerate(SHIFTS):
+            for k, t in enumerate([x for x in SHIFTS if x != "tfar"]):
                 if (i + j + k) % 3 == 0 or r == "I":
                     out.append(placement(r, s, t))
     return out
